@@ -163,7 +163,16 @@ pub fn run_case(env: &Env, ctx: &mut Ctx, idx: u64) {
                 let inc = dir.join("tail.svh");
                 // angle brackets: no quote may follow an unterminated-string fault in the same file
                 let head = format!("{}\n`include <tail.svh>\n", &mutant[..msp]);
-                let tail = mutant[msp..].to_string();
+                let mut tail = mutant[msp..].to_string();
+                // one time in two the sizes are made to line up: the included file is exactly as long as the offset just
+                // behind the directive in the including file (offsets of the two files then continue each other, which
+                // is when a table that coalesces neighbours must still keep the files apart); blanks at the end of the
+                // included file do not move the fault
+                let behind = head.len() - 1;
+                if tail.len() < behind && rng.chance(1, 2) {
+                    tail.push_str(&" ".repeat(behind - tail.len()));
+                    ctx.count("include_length_lines_up_with_directive_end", 1);
+                }
                 if fault_off < sp {
                     (vec![(top.clone(), head), (inc.clone(), tail)], top.clone(), fault_off)
                 } else {
@@ -172,7 +181,15 @@ pub fn run_case(env: &Env, ctx: &mut Ctx, idx: u64) {
             }
             None if rng.chance(1, 4) && kind != "deleted-delimiter" => {
                 let inc = dir.join("all.svh");
-                (vec![(top.clone(), "// top\n`include \"all.svh\"\n".to_string()), (inc.clone(), mutant.clone())], inc.clone(), fault_off)
+                let fixed = "// top\n`include \"all.svh\"".len();
+                let top_text = if mutant.len() > fixed && rng.chance(1, 2) {
+                    // same alignment, made by padding the comment in front of the directive
+                    ctx.count("include_length_lines_up_with_directive_end", 1);
+                    format!("// top{}\n`include \"all.svh\"\n", "x".repeat(mutant.len() - fixed))
+                } else {
+                    "// top\n`include \"all.svh\"\n".to_string()
+                };
+                (vec![(top.clone(), top_text), (inc.clone(), mutant.clone())], inc.clone(), fault_off)
             }
             _ => (vec![(top.clone(), mutant.clone())], top.clone(), fault_off),
         };
